@@ -686,6 +686,7 @@ impl Oracle {
                         }
                         if !got_it && allowed && !closed {
                           fails.push(format!("C03: member {m} (connection {k2}) got nothing from an acknowledged broadcast on {h} although the reported read list {rl:?} permits it"));
+                          fails.push(format!("C02: [missing-delivery] BROADCAST id={id} on {h} was acknowledged but connection {k2} of read-permitted member {m} received no MESSAGE"));
                         }
                       }
                     }
